@@ -114,7 +114,7 @@ func c11Strings(alpha string, maxLen int) []string {
 func c11Enumerate(thorough bool, f func(c11Call)) {
 	maxLen := 4
 	if thorough {
-		maxLen = 5
+		maxLen = 6
 	}
 	subjects := c11Strings("abc", maxLen)
 	subs := c11Strings("abc", 2)
@@ -367,7 +367,7 @@ func c11Run(r *core.Run) {
 			}
 		}
 	}
-	r.Bound("max_string_length", map[bool]int{false: 4, true: 5}[r.Thorough()])
+	r.Bound("max_string_length", map[bool]int{false: 4, true: 6}[r.Thorough()])
 	r.Bound("renamings", []string{"a->é b->€ c->😀", "a->a b->é c->😀"})
 	r.Bound("extra_strings", c11Extra)
 }
